@@ -9,7 +9,7 @@ ALL = ["C%02d" % i for i in range(1, 19)]
 MODEL_NOTE = "Trusted: SQLite 3.49 (bundled, math functions on) as the executing engine incl. its NULL ordering and binary collation; the reference interpreter's reading of the PRQL book (harness/src/model/eval.rs); results the book leaves open are counted as ambiguous and not judged. Recorded findings are excluded from the default generator by construction and re-exercised by probes and hazard sweeps (known_findings.json). Engines other than SQLite are not executed."
 CHECKS = {
  "C01": ("model",
-  "proptest tape-decoded program generation + differential execution on SQLite against an independent reference interpreter",
+  "proptest tape-decoded program generation + differential execution on SQLite against an independent reference interpreter; Thorough tier: plus a coverage-guided libFuzzer campaign (cargo-fuzz, fork mode) over the same oracle (target tape_c01: the fuzzer mutates the generator's choice tape)",
   "Each generated relational-core program is compiled (sqlite, generic), executed on an in-process SQLite over a generated instance and compared - values, multiplicities, and order where a sort is in effect - with a reference interpreter written from the PRQL book. Sampling: holds on everything explored, shrunk counterexample otherwise.",
   MODEL_NOTE, "DESIGN.md §2, §3 C01"),
  "C05": ("sqlbind",
@@ -33,7 +33,7 @@ CHECKS = {
   "Tables, let-tables, aliases and columns get hazardous names (keywords, spaces, quotes, mixed case, non-ASCII, leading digits, table_N, _expr_N); rows are compared with the reference interpreter on SQLite tables created with exactly those names, and the SQL of every dialect must bind case-sensitively against them. A second generator joins chains of relations with hazardous names / aliases, some repeated without alias so that the compiler invents aliases; marker columns decide which relation a qualified column came from.",
   MODEL_NOTE + " Case folding of engines other than SQLite is not executed.", "DESIGN.md §3 C09"),
  "C10": ("api",
-  "proptest generation of well-scoped programs + one scope-breaking edit (5 classes), oracle = compile returns Err",
+  "proptest generation of well-scoped programs + one scope-breaking edit (5 classes), oracle = compile returns Err; Thorough tier: plus a coverage-guided libFuzzer campaign (cargo-fuzz, fork mode) over the same oracle (target tape_c10)",
   "A compiling program with fully known frames gets exactly one edit (dropped column referenced, ambiguous bare name after join, surplus positional argument, unknown named argument, scalar as relation), usually followed by further valid transforms; compile must fail.",
   "Trusted: the generator's frame model for what is 'dropped' / 'ambiguous' (calibrated on 27 hand-written cases). One recorded finding with an exact predicate.", "DESIGN.md §3 C10"),
  "C11": ("history",
@@ -41,11 +41,11 @@ CHECKS = {
   "Histories of 3-12 calls (compile, pl_to_rq, pl_to_prql, permuted multi-file project) on 1-8 barrier-released threads, including failing and panicking calls; every output must equal that of the same call in a fresh process, and two fresh processes must agree.",
   "Thread schedules are sampled, not owned; hash seeds vary by process and thread. Six defects found this way were repaired by fix: commits (hash-order dependent error text, formatting, column order, hint order, root-module choice, relation instance credited with a CTE's sort columns).", "DESIGN.md §3 C11"),
  "C12": ("fuzz",
-  "proptest token-level mutation of valid programs + structure-aware mutation of PL/RQ JSON + nesting ladder, driven in isolated worker processes; oracle = no panic / deadly signal",
+  "proptest token-level mutation of valid programs + structure-aware mutation of PL/RQ JSON + nesting ladder, driven in isolated worker processes; oracle = no panic / deadly signal; Thorough tier: plus a coverage-guided libFuzzer campaign (cargo-fuzz, fork mode) over the same oracle for sources, PL JSON and RQ JSON (targets src_stages, json_pl, json_rq), artifacts re-judged in isolated workers",
   "Mutated sources and mutated PL/RQ JSON documents are driven through every public stage in worker processes (a stack overflow kills the worker, not the check); a panic or abort is a violation unless it matches a recorded panic (file + message prefix).",
   "Polynomial time cannot be decided by testing: watchdog time-outs are inconclusive, except that a short, shallow source (<= 4 KiB, bracket depth <= 12) that gets no answer within 2 x 60 s in two fresh workers is reported as non-termination. Recorded panics are matched on file and message prefix.", "DESIGN.md §3 C12"),
  "C13": ("api",
-  "proptest fault injection into valid programs with ASCII / multi-byte / CRLF padding; validity predicate over every ErrorMessage + metamorphic padding invariance",
+  "proptest fault injection into valid programs with ASCII / multi-byte / CRLF padding; validity predicate over every ErrorMessage + metamorphic padding invariance; Thorough tier: plus a coverage-guided libFuzzer campaign (cargo-fuzz, fork mode) over the same oracle on arbitrary source text (target err_span)",
   "Each returned error must have a reason, a span inside the source (character offsets), a location equal to the span's line/column and a rendered message quoting that line; replacing ASCII padding before the fault by multi-byte text of equal character length must not move span or location.",
   "Lexer-class faults are strict under multi-byte padding; parser/resolver-class faults under multi-byte padding are the recorded byte-offset finding. Faults inside f-/s-string placeholders (with escape sequences around) are included; the span of `Unknown name X` must cover X. Multi-file projects are not generated.", "DESIGN.md §3 C13"),
  "C02": ("model",
@@ -57,27 +57,27 @@ CHECKS = {
   "Sort-biased programs are executed on SQLite and the row sequence is compared with the reference order as a sequence of tie classes; additionally `P | take a..b` must equal rows a..b of P's own result for total orders (reference-free).",
   MODEL_NOTE, "DESIGN.md §3 C03"),
  "C04": ("model",
-  "proptest window-biased program generation + differential execution against a reference window evaluator",
+  "proptest window-biased program generation + differential execution against a reference window evaluator + metamorphic comparison of OVER clauses under all 12 dialects when one frame-accepting aggregation function is replaced by another",
   "Window-biased programs (partition x sort x frame kind x bounds x function x placement) are executed on SQLite and compared row by row with a reference window evaluation; the comparison also fixes the row count.",
   MODEL_NOTE, "DESIGN.md §3 C04"),
  "C14": ("api",
-  "proptest program generation + format/re-parse round trip, idempotence and same-SQL metamorphic oracle",
+  "proptest program generation + format/re-parse round trip, idempotence and same-SQL metamorphic oracle; exhaustive width ladder (16 templates x identifier lengths 1..70); Thorough tier: plus a coverage-guided libFuzzer campaign (cargo-fuzz, fork mode) over the same oracle on arbitrary source text the resolver accepts (target fmt_rt)",
   "Generated programs and the repository's queries are formatted, re-parsed and compared as syntax trees without spans/doc comments; formatting twice must be a fixed point; both texts must compile to the same SQL.",
   "Trusted: serde's JSON form of the PL tree as the notion of 'same syntax tree'. Programs are wrapped in lexically hazardous identifiers and string values (quotes, backslashes, control characters, $, non-ASCII). Recorded findings: integral float literals, an alias literally named `*`; two formatter defects were repaired by fix: commits.", "DESIGN.md §3 C14"),
  "C15": ("api",
-  "proptest program generation x dialect/options + JSON round-trip and staged-vs-one-shot differential oracle",
-  "PL and RQ must survive JSON (equal value, identical re-serialisation) and the staged chain through both JSON documents must produce the same SQL or the same errors (kind, code, reason, hints, span) as compile().",
+  "proptest program generation x dialect/options + JSON round-trip and staged-vs-one-shot differential oracle; Thorough tier: plus a coverage-guided libFuzzer campaign (cargo-fuzz, fork mode) over the same oracle (target staged)",
+  "PL and RQ must survive JSON (equal value, equal JSON value after re-serialisation) and the staged chain through both JSON documents must produce the same SQL or the same errors (kind, code, reason, hints, span) as compile().",
   "Trusted: PartialEq of the PL/RQ types. Differences must persist over repeated evaluation (compilation used to be non-deterministic; repaired). Identifiers and strings needing JSON escapes are generated.", "DESIGN.md §3 C15"),
  "C16": ("rqcheck",
-  "proptest program generation + invariant validator over the resolver's RQ (history-free validity predicate)",
+  "proptest program generation + invariant validator over the resolver's RQ (history-free validity predicate); Thorough tier: plus a coverage-guided libFuzzer campaign (cargo-fuzz, fork mode) over the same oracle (target tape_c16)",
   "The RQ of every accepted generated program (all constructs enabled) is checked for unique definition, def-before-use and visibility of column ids, declared-before-use table ids, table-reference columns, From..Select pipeline shape and arity, is_aggregation consistency.",
   "Trusted: the JSON form of RelationalQuery. Sort keys only need def-before-use (the resolver carries sorts past Selects by design; calibrated on the repository's queries). Two recorded findings with exact violation-text predicates.", "DESIGN.md §3 C16"),
  "C18": ("api",
   "proptest program generation x exhaustive option-by-header matrix, differential oracle between the option and header paths",
-  "For every generated program the complete matrix option in {none, 12 dialects} x header in {absent, sql.any, 12 dialects, 5 unknown names} is compiled and the documented precedence (option, then header, then generic; unknown is an error; resolver acceptance independent of the header) is checked.",
+  "For every generated program the complete matrix option in {none, 12 dialects} x header in {absent, sql.any, 12 dialects, 5 unknown names + 6 of 169 near-miss names (all 169 enumerated once)} is compiled and the documented precedence (option, then header, then generic; unknown is an error; resolver acceptance independent of the header) is checked.",
   "The matrix is exhaustive per program, programs are sampled. Differences must persist over repeated compilation (compilation is not deterministic).", "DESIGN.md §3 C18"),
  "C17": ("lexenum",
-  "exhaustive small-scope enumeration + proptest random fragment strings against a tiling / re-lex round-trip oracle",
+  "exhaustive small-scope enumeration + proptest random fragment strings against a tiling / re-lex round-trip oracle; Thorough tier: plus a coverage-guided libFuzzer campaign (cargo-fuzz, fork mode) over the same oracle (target lex_tile)",
   "Every string up to length 5 (quick) / 6 (thorough) over five themed alphabets of lexically significant characters is lexed and checked against the tiling and re-lex oracle (exhaustive within that bound), plus random fragment concatenations up to 200 chars. Holds on everything explored; says nothing beyond the bound except by sampling.",
   "Trusted: the oracle's reading of 'inline whitespace' (Unicode whitespace except CR/LF) and that token spans are byte ranges. One recorded finding (keyword look-ahead) is matched by an exact predicate.",
   "DESIGN.md §3 C17"),
@@ -117,10 +117,11 @@ def main():
             {"name": "fuzz", "path": "harness/src/prop/c12.rs", "serves_properties": ["C12"], "kind_free_text": "token / JSON mutation in isolated worker processes, nesting ladder in child processes"},
             {"name": "api", "path": "harness/src/prop", "serves_properties": ["C08", "C10", "C13", "C14", "C15", "C18"], "kind_free_text": "round-trip / differential / metamorphic oracles over the public prqlc API on generated programs"},
             {"name": "rqcheck", "path": "harness/src/rqcheck.rs", "serves_properties": ["C16"], "kind_free_text": "validator of RQ invariants over the JSON form of RelationalQuery"},
+            {"name": "libfuzzer", "path": "fuzz", "serves_properties": ["C01", "C10", "C12", "C13", "C14", "C15", "C16", "C17"], "kind_free_text": "cargo-fuzz crate with ten libFuzzer targets that call the checks' own oracle functions (harness/src/fuzzglue.rs); campaigns and strict re-judgement of artifacts in harness/src/fuzzrun.rs; thorough tier only, built by bin/setup-fuzz (nightly toolchain, offline)"},
             {"name": "lexenum", "path": "harness/src/prop/c17.rs", "serves_properties": ["C17"], "kind_free_text": "exhaustive enumeration of short strings + proptest tape search"},
         ],
         "checks": checks,
-        "notes": "All checks: ./bin/check <ID> <quick|thorough>; exit 0 held / 1 VIOLATION / 2 infrastructure or inconclusive. VERIF_SEED selects the PRNG streams. known_findings.json lists recorded defects; replays/<ID>/ holds the regression tier.",
+        "notes": "All checks: ./bin/check <ID> <quick|thorough>; exit 0 held / 1 VIOLATION / 2 infrastructure or inconclusive. VERIF_SEED selects the PRNG streams (and libFuzzer's -seed). The thorough tier also runs libFuzzer campaigns (VERIF_FUZZ_SECS overrides their wall-clock budget, VERIF_NO_FUZZ=1 skips them); a budget hit is never a verdict. known_findings.json lists recorded defects; replays/<ID>/ holds the regression tier.",
         "not_applicable": [{"property_id": p, "reason": NA_REASON} for p in ALL if p not in CHECKS],
     }
     json.dump(m, open(os.path.join(HERE, "MANIFEST.json"), "w"), indent=1)
